@@ -1,10 +1,11 @@
 (* Properties/GenTie.v — the tie between the Rust source text and the model for the word-level
    helpers: Gen/Scalar.v is regenerated from /repo by tools_rs2v.py on every run; this file is
    re-checked against it.  Nothing else lives here. *)
+From Coq Require Import Lia.
 From RV.Model Require Import Base Word Limbs Bytes DivRecip DivSmall Redc.
 From RV.Gen Require Import Prim Scalar.
-From RV.Model Require Add Mul UDiv Conv.
-From RV.Proofs Require Import PfGenScalar PfGenAdd PfGenMul PfGenDiv PfGenSpecial PfGenCtor.
+From RV.Model Require Add Mul UDiv Conv Bits.
+From RV.Proofs Require Import BaseFacts PfGenScalar PfGenAdd PfGenMul PfGenDiv PfGenSpecial PfGenCtor PfGenBits.
 
 Theorem GenTie_source_equals_model :
   (forall bits, 0 <= bits -> bits + 63 < B -> g_nlimbs bits = Val (nlimbs bits)) /\
@@ -190,6 +191,27 @@ Proof.
         (conj (g_MAX_eq bits H0 HB) (g_ONE_eq bits H0 HB))))).
 Qed.
 Print Assumptions GenTie_ctor.
+
+(* src/bits.rs: bit, set_bit, not, count_ones, count_zeros; src/special.rs: is_power_of_two *)
+Theorem GenTie_bits_rs : forall bits a i v,
+  0 <= bits -> bits < B -> 64 * nlimbs bits < B -> wfU bits a -> 0 <= i ->
+  g_bit bits (nlimbs bits) a i = Bits.bit bits a i /\
+  g_set_bit bits (nlimbs bits) a i v = Bits.set_bit bits a i v /\
+  g_not bits (nlimbs bits) a = Val (Bits.unot bits a) /\
+  g_count_ones bits (nlimbs bits) a = Val (Bits.count_ones a) /\
+  g_count_zeros bits (nlimbs bits) a = Bits.count_zeros bits a /\
+  g_is_power_of_two bits (nlimbs bits) a = Val (Bits.is_power_of_two a).
+Proof.
+  intros bits a i v H0 H1 HB Ha Hi. unfold wfU in Ha.
+  assert (HB' : nlimbs bits <= B) by (pose proof (nlimbs_nonneg bits H0); lia).
+  exact (conj (g_bit_eq bits _ a i Hi)
+        (conj (g_set_bit_eq bits _ a i v Hi)
+        (conj (g_not_eq bits a H0 HB' Ha)
+        (conj (g_count_ones_eq bits a H0 HB Ha)
+        (conj (g_count_zeros_eq bits a H0 H1 HB Ha)
+              (g_is_power_of_two_eq bits a H0 HB Ha)))))).
+Qed.
+Print Assumptions GenTie_bits_rs.
 
 (* the premises are satisfiable and the generated code computes: reciprocal(2^63) = 2^64 - 1 *)
 Example GenTie_nonvacuous :
